@@ -241,6 +241,9 @@ def mon_c20(spec, run):
     sends = [x for x in items if x[1] == "Send"]
     recvs = [x for x in items if x[1] == "Received"]
     for c in calls(tr):
+        if c["op"][0] == "snap" and c["exc"] is not None:
+            bad.append(("raises", f"requesting the communication log raised {c['exc']}: {c.get('msg')}"))
+            break
         if c["op"][0] != "snap" or c["res"] is None:
             continue
         log = c["res"]
@@ -264,14 +267,17 @@ def mon_c20(spec, run):
         lr = [t for k, t in ents if k == "Received"]
         s_before = [t for s, _, t in sends if s < c["ret"]]
         r_before = [t for s, _, t in recvs if s < c["ret"]]
+        # the snapshot is taken somewhere between the call and its return (the accessor may be preempted / held back before or after it)
+        s_call = [t for s, _, t in sends if s < c["call"]]
+        r_call = [t for s, _, t in recvs if s < c["call"]]
         s_all = [t for _, _, t in sends]
 
-        def is_recent_run(sub, full_before, full_all):
+        def is_recent_run(sub, full_before, full_all, full_call):
             if not sub:
                 return True
             n = len(sub)
-            # candidates: suffixes of prefixes of full_all ending between (len(full_before)-1 .. len(full_before)+1) to allow in-flight entries
-            for end in range(max(0, len(full_before) - 2), min(len(full_all), len(full_before) + 1) + 1):
+            # candidates: suffixes of prefixes of full_all ending between (len(full_call)-2 .. len(full_before)+1) to allow in-flight entries
+            for end in range(max(0, len(full_call) - 2), min(len(full_all), len(full_before) + 1) + 1):
                 if full_all[max(0, end - n):end] == sub:
                     return True
                 # an entry logged whose write never happened (port closed / in flight at the end)
@@ -279,19 +285,19 @@ def mon_c20(spec, run):
                     return True
             return False
 
-        if not is_recent_run(ls, s_before, s_all):
+        if not is_recent_run(ls, s_before, s_all, s_call):
             bad.append(("sends", f"Send entries {ls[-4:]} are not the most recent transmissions {s_before[-4:]} in order"))
             break
-        if not is_recent_run(lr, r_before, [t for _, _, t in recvs]):
+        if not is_recent_run(lr, r_before, [t for _, _, t in recvs], r_call):
             bad.append(("receives", f"Received entries {lr[-4:]} are not the most recent received lines {r_before[-4:]} in order"))
             break
-        if N > 0 and len(ents) < min(N, len(s_before) + len(r_before) - 2):
-            bad.append(("short", f"log holds {len(ents)} entries although {len(s_before) + len(r_before)} lines have crossed the wire (size {N})"))
+        if N > 0 and len(ents) < min(N, len(s_call) + len(r_call) - 2):
+            bad.append(("short", f"log holds {len(ents)} entries although {len(s_call) + len(r_call)} lines had crossed the wire when the log was requested (size {N})"))
             break
         # causality: a reply is never listed before the command that caused it
         causes = {}
         for e in tr:
-            if e["k"] == "dev_line" and e.get("cause"):
+            if e["k"] == "dev_line" and e.get("cause") is not None:
                 causes.setdefault(e["line"], []).append(e["cause"])
         for i, (k, t) in enumerate(ents):
             if k == "Received" and t in causes and len(causes[t]) == 1:
@@ -963,30 +969,29 @@ MONITORS["C05w"] = _wire("mon_c05w")
 # ------------------------------------------------------------------------------------------------ C02 (through the reader thread)
 def mon_c02_threads(spec, run):
     """what the registered callback is told = the independent reading of the complete lines the device sent, in order, once each —
-    however the bytes were split over reads and whatever the library's other threads did in between"""
+    however the bytes were split over reads and whatever the library's other threads did in between; an incomplete trailing line is
+    never reported (not even when the link fails)"""
     from .wire import parse_line
     tr = run.trace
     bad = []
     lc = lifecycle(tr)
     end = lc["final_close"] if lc["final_close"] is not None else 10 ** 12
-    want = []
-    for rseq, wend, text in lines_by_read(tr):
-        if wend < end:
-            want.append(parse_line(text))
-    got = [(e["status"], e["su"], e["fn"], e["val"]) for e in tr if e["k"] == "msg_cb" and e["cb"] == 1 and e["seq"] < end]
     skip = lambda m: m[1] == "SYS" and m[2] == "MODELNAME"  # noqa: E731   (keep-alive replies are withheld: C13's business)
-    want = [m for m in want if not skip(m)]
+    allq = [(wend, parse_line(text)) for rseq, wend, text in lines_by_read(tr)]
+    total = [m for _, m in allq if not skip(m)]                       # every complete line that was ever read
+    fault = lc["fault"] if lc["fault"] is not None else 10 ** 12
+    certain = [m for wend, m in allq if wend < min(end, fault) and not skip(m)]     # ... and certainly processed before the observation ended
+    got = [(e["status"], e["su"], e["fn"], e["val"]) for e in tr if e["k"] == "msg_cb" and e["cb"] == 1]
     got = [m for m in got if not skip(m)]
-    # lines whose syntax the property does not fix must still yield exactly one notification: compare those by position only
-    if len(got) < len(want) or len(got) > len(want) + 1:
-        bad.append(("count", f"{len(got)} notifications for {len(want)} complete lines; first difference near {next((w for w, g in zip(want, got) if w != g), want[len(got)] if len(got) < len(want) else got[-1])}"))
-    else:
-        for w, g in zip(want, got):
-            if w[1] is not None or w[0] != "OK":
-                if tuple(w) != tuple(g):
-                    bad.append(("parse", f"a line that reads {w} was reported as {g}"))
-                    break
-    sent = [bytes.fromhex(e["data"]) for e in tr if e["k"] == "feed"] if False else None
+    if len(got) > len(total):
+        bad.append(("count", f"{len(got)} notifications for {len(total)} complete lines; the extra one: {got[len(total)]} (an incomplete line must not be reported)"))
+    elif len(got) < len(certain):
+        bad.append(("count", f"{len(got)} notifications for {len(certain)} complete lines; first missing: {certain[len(got)]}"))
+    for w, g in zip(total, got):
+        # lines whose syntax the property does not fix must still yield exactly one notification: those are compared by position only
+        if (w[1] is not None or w[0] != "OK") and tuple(w) != tuple(g):
+            bad.append(("parse", f"a line that reads {w} was reported as {g}"))
+            break
     return bad
 
 
